@@ -32,6 +32,10 @@ struct Model {
 enum Act {
     /// rotate to the next fresh set, authorised by the set installed at epoch `by`
     Rotate { by: usize, bypass: bool },
+    /// a relayer-style dry run that is NOT rolled back: validate_proof for the set installed at
+    /// epoch `by`, over the same data the probes use later (a verdict cached now must not outlive
+    /// the set's retention)
+    Validate { by: usize },
     Advance(u32),
 }
 
@@ -129,6 +133,9 @@ impl Scenario for C08 {
                 v.push(Act::Rotate { by, bypass: true });
             }
         }
+        for by in 1..=m.epoch {
+            v.push(Act::Validate { by });
+        }
         if m.advances < self.max_adv {
             v.push(Act::Advance(20));
             // ~405 days: longer than the maximum entry TTL, so every temporary entry is gone by then, while
@@ -158,6 +165,18 @@ impl Scenario for C08 {
                 } else {
                     out.expect(h0 == w.state_hash(), "rotate.rejected-but-changed", || format!("{:?}", a));
                 }
+            }
+            Act::Validate { by } => {
+                out.kind = "validate";
+                let env = &w.env;
+                let dh = [0x42u8; 32];
+                let proof = honest_proof(&ctx.keys, &pool(by - 1), &DOMAIN, &dh);
+                let c = w.call(&ctx.gw, "validate_proof", &[to_val(env, &sbytes(&dh)), to_val(env, &proof)], Auth::Nobody);
+                let want = self.honoured(ctx, m, *by);
+                out.accepted = c.ok;
+                out.expect(c.ok == want, "validate.window", || {
+                    format!("validate_proof by the set of epoch {} at epoch {} retention {}: ok={} ({}), model {}", by, m.epoch, ctx.retention, c.ok, c.err, want)
+                });
             }
             Act::Advance(n) => {
                 out.kind = "advance";
@@ -217,7 +236,7 @@ impl Scenario for C08 {
     }
 
     fn must_succeed_kinds(&self) -> Vec<&'static str> {
-        vec!["rotate", "rotate-bypass"]
+        vec!["rotate", "rotate-bypass", "validate"]
     }
 }
 
@@ -238,7 +257,7 @@ fn main() {
         let mut o = Opts::new(tier, if thorough { 13 } else { 9 });
         o.min_depth = 4;
         o.xcheck = tier == "thorough";
-        o.rule = "retention in {0,1,2,3,7,2^32,2^32+1,u64::MAX} x 1-3 initial sets; all rotation histories where each rotation is authorised by ANY installed set, with and without operator bypass, plus bounded ledger advancement; explored to fixpoint up to epoch 7 (quick) / 10 (thorough). In every reached state, for EVERY installed set: validate_proof, approve_messages of a fresh id, non-bypass rotation and bypass rotation are executed on a snapshot and compared with `epoch - e <= retention` (non-bypass rotation: e == epoch)".into();
+        o.rule = "retention in {0,1,2,3,7,2^32,2^32+1,u64::MAX} x 1-3 initial sets; all rotation histories where each rotation is authorised by ANY installed set, with and without operator bypass, kept (not rolled back) validate_proof calls by any installed set, plus bounded ledger advancement; explored to fixpoint up to epoch 7 (quick) / 10 (thorough). In every reached state, for EVERY installed set: validate_proof, approve_messages of a fresh id, non-bypass rotation and bypass rotation are executed on a snapshot and compared with `epoch - e <= retention` (non-bypass rotation: e == epoch)".into();
         (s, o)
     });
 }
